@@ -21,7 +21,7 @@ def payloads(tier, seed):
     out = [{"seed": seed, "index": i, "mode": "corr"} for i in range(n)]
     m = 16 if tier == "quick" else 200
     out += [{"seed": seed, "index": i, "mode": "closed"} for i in range(m)]
-    out += [{"seed": seed, "index": i, "mode": "adaptive_scenarios"} for i in range(8 if tier == "quick" else 120)]
+    out += [{"seed": seed, "index": i, "mode": "adaptive_scenarios"} for i in range(9 if tier == "quick" else 120)]
     return out
 
 def build(ops):
@@ -49,7 +49,35 @@ def adaptive_scenarios(W, payload):
     r = random.Random(f"C07s:{payload['seed']}:{payload['index']}")
     out = mk_out()
     try:
-        if payload["index"] % 2 == 0:
+        if payload["index"] % 3 == 2:
+            # a run with the DEFAULT tolerances that follows, in the same process, a run of ANOTHER model for which the user asked for very
+            # loose tolerances: the defaults are the documented ones (1.4e-4), whatever was requested before
+            a = r.choice([Fr(1, 4), Fr(1, 3), Fr(1, 5)]); b = r.choice([Fr(1, 8), Fr(1, 10)])
+            def chain(t1, dt):
+                return [{"op": "model", "t0": "0", "t1": str(t1), "dt": str(dt), "comps": ["A", "B", "C"], "inf": ["A"]},
+                        {"op": "init_pop", "dist": [["A", {"c": "1000"}], ["B", {"c": "10"}]]},
+                        {"op": "flow", "kind": "transition", "name": "ab", "param": {"c": q(a)}, "src": "A", "dst": "B"},
+                        {"op": "flow", "kind": "transition", "name": "bc", "param": {"c": q(b)}, "src": "B", "dst": "C"}]
+            bump(out, "scenario:defaults_after_a_loose_run")
+            I0 = build(chain(10, 5))
+            loose = r.choice(["1/2", "1/4"])
+            run(I0, "odeint", rtol=loose, atol=loose)
+            ops = chain(*r.choice([(20, 5), (24, 4), (15, 5)]))
+            I_ = build(ops)
+            o = run(I_, "odeint")
+            out["evals"] += 2
+            tt = np.array(I_.model.times, dtype=float)
+            fa, fb = float(a), float(b)
+            A = 1000 * np.exp(-fa * tt)
+            B = 10 * np.exp(-fb * tt) + 1000 * fa / (fb - fa) * (np.exp(-fa * tt) - np.exp(-fb * tt))
+            ex = np.stack([A, B, 1010 - A - B], axis=1)
+            tv = 1.4e-4
+            lim = 50 * (tv + tv * np.abs(ex))
+            out["cases"].append(f"defaults_after:{a}:{b}:{loose}")
+            if not np.all(np.isfinite(o)) or np.any(np.abs(o - ex) > lim):
+                fail(out, "a run with default solver arguments, after a run of another model with loose tolerances, is not within the default tolerance of the exact solution",
+                     "c07", payload, got=o.tolist(), exact=ex.tolist(), loose_tolerance_of_previous_run=loose, program=ops)
+        elif payload["index"] % 3 == 0:
             a = r.choice([Fr(1, 500), Fr(1, 300), Fr(1, 1000)]); b = r.choice([Fr(1, 400), Fr(1, 800)])
             t1, dt = r.choice([(3000, 1000), (4000, 2000), (1500, 750)])
             ops = [{"op": "model", "t0": "0", "t1": str(t1), "dt": str(dt), "comps": ["A", "B", "C"], "inf": ["A"]},
